@@ -1,6 +1,9 @@
 Gen/GenArgs.vo Gen/GenArgs.glob Gen/GenArgs.v.beautified Gen/GenArgs.required_vo: Gen/GenArgs.v Lib/NumOps.vo
 Gen/GenArgs.vio: Gen/GenArgs.v Lib/NumOps.vio
 Gen/GenArgs.vos Gen/GenArgs.vok Gen/GenArgs.required_vos: Gen/GenArgs.v Lib/NumOps.vos
+Gen/GenAsync.vo Gen/GenAsync.glob Gen/GenAsync.v.beautified Gen/GenAsync.required_vo: Gen/GenAsync.v Lib/NumOps.vo
+Gen/GenAsync.vio: Gen/GenAsync.v Lib/NumOps.vio
+Gen/GenAsync.vos Gen/GenAsync.vok Gen/GenAsync.required_vos: Gen/GenAsync.v Lib/NumOps.vos
 Gen/GenChunk.vo Gen/GenChunk.glob Gen/GenChunk.v.beautified Gen/GenChunk.required_vo: Gen/GenChunk.v Lib/NumOps.vo
 Gen/GenChunk.vio: Gen/GenChunk.v Lib/NumOps.vio
 Gen/GenChunk.vos Gen/GenChunk.vok Gen/GenChunk.required_vos: Gen/GenChunk.v Lib/NumOps.vos
@@ -19,6 +22,9 @@ Lib/B64.vos Lib/B64.vok Lib/B64.required_vos: Lib/B64.v Lib/NumOps.vos
 Lib/NumOps.vo Lib/NumOps.glob Lib/NumOps.v.beautified Lib/NumOps.required_vo: Lib/NumOps.v 
 Lib/NumOps.vio: Lib/NumOps.v 
 Lib/NumOps.vos Lib/NumOps.vok Lib/NumOps.required_vos: Lib/NumOps.v 
+Model/Apply.vo Model/Apply.glob Model/Apply.v.beautified Model/Apply.required_vo: Model/Apply.v Lib/NumOps.vo Gen/GenAsync.vo Gen/GenStruct.vo Model/OrderHist.vo
+Model/Apply.vio: Model/Apply.v Lib/NumOps.vio Gen/GenAsync.vio Gen/GenStruct.vio Model/OrderHist.vio
+Model/Apply.vos Model/Apply.vok Model/Apply.required_vos: Model/Apply.v Lib/NumOps.vos Gen/GenAsync.vos Gen/GenStruct.vos Model/OrderHist.vos
 Model/Chunk.vo Model/Chunk.glob Model/Chunk.v.beautified Model/Chunk.required_vo: Model/Chunk.v Lib/NumOps.vo Gen/GenChunk.vo
 Model/Chunk.vio: Model/Chunk.v Lib/NumOps.vio Gen/GenChunk.vio
 Model/Chunk.vos Model/Chunk.vok Model/Chunk.required_vos: Model/Chunk.v Lib/NumOps.vos Gen/GenChunk.vos
@@ -40,6 +46,9 @@ Model/Hist.vos Model/Hist.vok Model/Hist.required_vos: Model/Hist.v Gen/GenStruc
 Model/OrderHist.vo Model/OrderHist.glob Model/OrderHist.v.beautified Model/OrderHist.required_vo: Model/OrderHist.v Gen/GenStruct.vo
 Model/OrderHist.vio: Model/OrderHist.v Gen/GenStruct.vio
 Model/OrderHist.vos Model/OrderHist.vok Model/OrderHist.required_vos: Model/OrderHist.v Gen/GenStruct.vos
+Proofs/ApplyProofs.vo Proofs/ApplyProofs.glob Proofs/ApplyProofs.v.beautified Proofs/ApplyProofs.required_vo: Proofs/ApplyProofs.v Lib/NumOps.vo Gen/GenAsync.vo Gen/GenStruct.vo Model/OrderHist.vo Model/Apply.vo
+Proofs/ApplyProofs.vio: Proofs/ApplyProofs.v Lib/NumOps.vio Gen/GenAsync.vio Gen/GenStruct.vio Model/OrderHist.vio Model/Apply.vio
+Proofs/ApplyProofs.vos Proofs/ApplyProofs.vok Proofs/ApplyProofs.required_vos: Proofs/ApplyProofs.v Lib/NumOps.vos Gen/GenAsync.vos Gen/GenStruct.vos Model/OrderHist.vos Model/Apply.vos
 Proofs/ChunkPartition.vo Proofs/ChunkPartition.glob Proofs/ChunkPartition.v.beautified Proofs/ChunkPartition.required_vo: Proofs/ChunkPartition.v Lib/NumOps.vo Gen/GenChunk.vo Model/Chunk.vo Spec/ChunkSpec.vo
 Proofs/ChunkPartition.vio: Proofs/ChunkPartition.v Lib/NumOps.vio Gen/GenChunk.vio Model/Chunk.vio Spec/ChunkSpec.vio
 Proofs/ChunkPartition.vos Proofs/ChunkPartition.vok Proofs/ChunkPartition.required_vos: Proofs/ChunkPartition.v Lib/NumOps.vos Gen/GenChunk.vos Model/Chunk.vos Spec/ChunkSpec.vos
@@ -103,6 +112,9 @@ Props/C03.vos Props/C03.vok Props/C03.required_vos: Props/C03.v Lib/NumOps.vos G
 Props/C06.vo Props/C06.glob Props/C06.v.beautified Props/C06.required_vo: Props/C06.v Gen/GenStruct.vo Gen/GenParams.vo Model/OrderHist.vo Model/Hist.vo Proofs/HistProofs.vo
 Props/C06.vio: Props/C06.v Gen/GenStruct.vio Gen/GenParams.vio Model/OrderHist.vio Model/Hist.vio Proofs/HistProofs.vio
 Props/C06.vos Props/C06.vok Props/C06.required_vos: Props/C06.v Gen/GenStruct.vos Gen/GenParams.vos Model/OrderHist.vos Model/Hist.vos Proofs/HistProofs.vos
+Props/C09.vo Props/C09.glob Props/C09.v.beautified Props/C09.required_vo: Props/C09.v Lib/NumOps.vo Gen/GenAsync.vo Gen/GenStruct.vo Model/Apply.vo Proofs/ApplyProofs.vo
+Props/C09.vio: Props/C09.v Lib/NumOps.vio Gen/GenAsync.vio Gen/GenStruct.vio Model/Apply.vio Proofs/ApplyProofs.vio
+Props/C09.vos Props/C09.vok Props/C09.required_vos: Props/C09.v Lib/NumOps.vos Gen/GenAsync.vos Gen/GenStruct.vos Model/Apply.vos Proofs/ApplyProofs.vos
 Props/C10.vo Props/C10.glob Props/C10.v.beautified Props/C10.required_vo: Props/C10.v Gen/GenStruct.vo Gen/GenParams.vo Model/OrderHist.vo Model/Hist.vo Proofs/HistProofs.vo
 Props/C10.vio: Props/C10.v Gen/GenStruct.vio Gen/GenParams.vio Model/OrderHist.vio Model/Hist.vio Proofs/HistProofs.vio
 Props/C10.vos Props/C10.vok Props/C10.required_vos: Props/C10.v Gen/GenStruct.vos Gen/GenParams.vos Model/OrderHist.vos Model/Hist.vos Proofs/HistProofs.vos
